@@ -42,8 +42,11 @@ import glob, re
 can = json.load(open("checker/internal/rules/canaries.json"))
 res = {}
 for pid in sorted(props):
-    ev = json.load(open("evidence/%s.json" % pid))
-    for cr in (ev.get("coverage", {}).get("canaries") or ev.get("canaries") or []):
+    try:
+        crs = json.load(open("evidence/canaries/%s.json" % pid)) or []
+    except FileNotFoundError:
+        crs = []
+    for cr in crs:
         res[cr.get("id") or cr.get("ID")] = cr
 def short(t, n=70):
     t = t.replace("\n", "⏎").replace("\t", "⇥").replace("|", "¦").replace("\\", "")
